@@ -10,7 +10,7 @@ Lemma crunk_bind : forall A B (p : cprog A) (f : A -> cprog B) w k,
   crunk (bind p f) w k = let '(w', k', a) := crunk p w k in crunk (f a) w' k'.
 Proof. intros. unfold crunk. apply runk_bind. Qed.
 
-Ltac lnorm := repeat (progress (cbn [bind err_of fst snd rsum is_ok rok fail_reply runk for_all get_nodes filter_nodes acquire release
+Ltac lnorm := repeat (progress (cbn [bind err_of fst snd rsum is_ok rok fail_reply runk is_faultable for_all get_nodes filter_nodes acquire release
                                     dedupe_keys existsb map lockkey_eqb orb]; try unfold call1; try unfold doc; try unfold ign)).
 
 (* a lock release never changes the world *)
